@@ -4,7 +4,7 @@
    of the two ways an Await can wake up, of the callback goroutine's clear section and SetResult, of context
    cancellations and callback outcomes (value / error / Canceled); for MemoizeFunc every interleaving of the
    individual atomic operations and plain accesses of any number of callers. *)
-From Util Require Import Common.Base Common.ListLemmas Once.Model Once.Spec Once.Proofs.
+From Util Require Import Common.Base Common.ListLemmas Once.Model Once.Spec Once.Proofs Once.ProofsMon Once.ProofsMon2 Once.ProofsMonMemo.
 
 (* ---- Once: never two invocations of the callback at the same time.
    At most one goroutine is inside user code; more precisely at most one goroutine "holds" (is inside the callback,
@@ -122,7 +122,33 @@ Theorem c16_memo_publish_before_close : forall es,
 Proof. exact memo_publish_before_close_all. Qed.
 Print Assumptions c16_memo_publish_before_close.
 
-(* ---- monitors vs. model.  BOUNDED (the unbounded model_satisfies_monitors is not proved): for every event sequence
+(* ---- monitors vs. model, for EVERY list of harness events (no bound on length or number of actors): on the
+   observations the model itself produces under the codec-level step of Spec.v (eager schedule; the run stops at the
+   first event the model does not accept) no clause of the monitors of Spec.v is ever false.  So the model satisfies
+   the property in exactly the form the checks evaluate on the implementation's traces, and the monitors cannot raise
+   an alarm on an implementation that behaves like the model.  (Proofs: ProofsMon.v, ProofsMon2.v, ProofsMonMemo.v.) *)
+Theorem c16_once_model_satisfies_monitors : forall evs,
+  monitor mon_once 0 monit [] evs (run_obs hstep hinit evs) = [].
+Proof. exact model_satisfies_monitors. Qed.
+Print Assumptions c16_once_model_satisfies_monitors.
+
+(* hence the extracted checker reports nothing at all on any history that the model accepts completely *)
+Theorem c16_once_model_run_check_clean : forall cfg evs,
+  length (run_obs hstep hinit evs) = length evs -> run_check_once cfg evs (run_obs hstep hinit evs) = [].
+Proof. exact model_run_check_clean. Qed.
+Print Assumptions c16_once_model_run_check_clean.
+
+Theorem c16_memo_model_satisfies_monitors : forall evs,
+  monitor mon_memo 0 mmonit [] evs (run_obs mhstep minit evs) = [].
+Proof. exact memo_satisfies_monitors. Qed.
+Print Assumptions c16_memo_model_satisfies_monitors.
+
+Theorem c16_memo_model_run_check_clean : forall cfg evs,
+  length (run_obs mhstep minit evs) = length evs -> run_check_memo cfg evs (run_obs mhstep minit evs) = [].
+Proof. exact memo_run_check_clean. Qed.
+Print Assumptions c16_memo_model_run_check_clean.
+
+(* the older bounded sweeps (kept; now implied by the theorems above): for every event sequence
    accepted by the codec-level step, of length <= 7 from the initial state and of length <= 4 after each of eight
    prefixes that reach the interesting regions (incl. the window inside SetResult), the monitors of Spec.v report nothing on the model's own observations *)
 Theorem c16_once_monitors_accept_model_bounded :
@@ -229,3 +255,15 @@ Example c16_monitor_accepts_window_history :
      [5;2;9;0;5;2;3;5;9;0;1;0];
      [5;2;9;0;5;2;3;5;9;0;3;5]] = [].
 Proof. vm_compute. reflexivity. Qed.
+
+(* the hypothesis of c16_once_model_run_check_clean / c16_memo_model_run_check_clean is satisfiable by non-trivial histories *)
+Example c16_example_model_accepts_window_history :
+  let evs := [[1;0];[3;0;0];[1;0];[3;2;0];[5;1;1];[3;1;0];[1;0];[3;3;0];[5;4;0];[3;4;0];[3;4;0];[3;1;0];[3;1;0];[1;0];[3;5;0]] in
+  length (run_obs hstep hinit evs) = length evs /\
+  nth 12 (run_obs hstep hinit evs) [] = [5;2;9;0;5;2;3;5;9;0].
+Proof. vm_compute. split; reflexivity. Qed.
+Example c16_example_model_accepts_memo_history :
+  let evs := [[3;3;1];[1];[2;1;0];[1]] in
+  length (run_obs mhstep minit evs) = length evs /\
+  nth 3 (run_obs mhstep minit evs) [] = [3;2;3;2;3;2;3;2;3;2].
+Proof. vm_compute. split; reflexivity. Qed.
